@@ -397,6 +397,31 @@ def mimic_checks(R: Recorder) -> None:
         bad = [k for k, v in facts.items() if not v]
         R.case({"mimic": label}, nontrivial=False)
         R.monitor("mimic", not bad, where={"kind": "metadata-lost", "deco": label.split("-")[0].split("(")[0], "attr": bad[0] if bad else None}, detail=f"{label}: {facts}", case={"mimic": label})
+    # stacked decorators: the reference must be the function that was handed to the decorator (which itself carries a __wrapped__)
+    import functools
+
+    def user_deco(fn: Any) -> Any:
+        @functools.wraps(fn)
+        def inner(*a: Any, **k: Any) -> Any:
+            return fn(*a, **k)
+
+        return inner
+
+    stacks: list[tuple[str, Any, Any]] = [
+        ("retry(traced(sync))", retry, traced(sync_fn)), ("cache(retry(sync))", cache, retry(sync_fn)), ("traced(user_deco(sync))", traced, user_deco(sync_fn)),
+        ("retry(limit)(cache(async))", lambda f: retry(limit=2)(f), cache(async_fn)), ("timeout(throttle(async))", lambda f: timeout(1.0)(f), throttle(async_fn)),
+("cache(user_deco(sync))", lambda f: cache(limit=2)(f), user_deco(sync_fn)),
+        ("asynchronous(user_deco(sync))", asynchronous, user_deco(sync_fn)), ("wrap_async(traced(sync))", wrap_async, traced(sync_fn)), ("traced(retry(async))", traced, retry(async_fn)),
+    ]
+    for label, deco, inner_fn in stacks:
+        try:
+            w = deco(inner_fn)
+            facts = {"__name__": getattr(w, "__name__", None) == inner_fn.__name__, "__doc__": getattr(w, "__doc__", None) == inner_fn.__doc__, "__wrapped__": getattr(w, "__wrapped__", None) is inner_fn}
+        except BaseException as exc:  # noqa: BLE001
+            facts = {"decorating raised " + repr(exc): False}
+        bad = [k for k, v in facts.items() if not v]
+        R.case({"mimic": label}, nontrivial=True)
+        R.monitor("mimic", not bad, where={"kind": "metadata-lost", "deco": label.split("(")[0], "attr": bad[0] if bad else None, "stacked": True}, detail=f"{label}: {facts}; __wrapped__ is {getattr(w, '__wrapped__', None)!r}, handed in {inner_fn!r}", case={"mimic": label})
     # bound methods (descriptor path)
     for label, deco, is_async in (("asynchronous-method", asynchronous, False), ("cache-method-sync", cache, False), ("cache-method-async", cache, True), ("cache(limit)-method", lambda f: cache(limit=3)(f), False)):
         if is_async:
